@@ -2220,7 +2220,7 @@ func TestVerifC36(t *testing.T) {
 		"values are restricted to booleans, small integers (SuInt and SuDnum forms), halves, short strings, constant objects and the live containers themselves (acyclic)")
 	defer rep.Finish()
 	compileAll()
-	n := vk.N(10000, 400000)
+	n := vk.N(30000, 400000)
 	th := &Thread{}
 	for i := 0; i < n; i++ {
 		if i%64 == 0 {
